@@ -461,6 +461,9 @@ func (r *Run) isViolated(id string) bool {
 	return r.violated[id] >= maxCexPerAssertion
 }
 
+// solverRecycleAfter: checks answered by one z3 process before it is replaced (memory hygiene only).
+const solverRecycleAfter = 3000
+
 // maxCexPerAssertion: alternatives kept per assertion id; the replay step tries them in turn, so a model
 // that relies on an idealised environment value (e.g. four arbitrary bytes equal to a SHA-256 prefix) does
 // not mask a constructive counterexample of the same assertion found on another path.
@@ -765,7 +768,12 @@ func (e *Engine) exploreHarness(fn *ssa.Function, workers int) *HarnessResult {
 				if !ok {
 					return
 				}
-				if sol.dead { // killed after a timeout: start a fresh process for the next path
+				if sol.Calls >= solverRecycleAfter && !sol.dead {
+					// z3 does not give back what push/pop cycles allocated: a long-lived process grows to
+					// gigabytes (16 workers x 3.5 GB ended in the kernel's OOM killer). Start a fresh one.
+					sol.dead = true
+				}
+				if sol.dead { // killed after a timeout (or recycled): start a fresh process for the next path
 					sol.Close()
 					ns, err := NewSolver(solverZ3New, e.opts.TimeoutMs)
 					if err != nil {
